@@ -82,6 +82,11 @@ package rtpfb
 //@ func (*history).delete
 //@   requires in: p != nil && h.twccToCounter != nil && h.ssrcSeqNrToCounter != nil
 //@   modifies mem map[uint16]uint64, mem map[ssrcSequenceNumber]uint64
+//@   # only the packet's own keys are removed: a packet that was not tracked by TWCC leaves the TWCC table alone
+//@   ensures twcc_table: forall k uint16 :: !(p.IsTWCC && k == p.TWCCSequenceNumber) ==>
+//@        (has(h.twccToCounter, k) <==> washas(h.twccToCounter, k)) && (has(h.twccToCounter, k) ==> h.twccToCounter[k] == wasat(h.twccToCounter, k))
+//@   ensures ssrc_table: forall s uint32, q uint16 :: !(s == p.SSRC && q == p.RTPSequenceNumber) ==>
+//@        (has(h.ssrcSeqNrToCounter, mkstruct("ssrcSequenceNumber", s, q)) <==> washas(h.ssrcSeqNrToCounter, mkstruct("ssrcSequenceNumber", s, q)))
 //@
 //@ func (*history).cleanBefore
 //@   requires inv: histInv(h)
